@@ -222,6 +222,18 @@ CHECKS = {
         note="The pandas half (to_dict(orient=index), from_dict, fillna/replace, dtypes) is only exercised by the bounded round trips "
              "(96 quick / 400 thorough); known finding: an all-adsorption assignment on non-monotone data is re-guessed on import.",
         technique="symmetry contracts by exhaustive evaluation over key-set shapes + static read sets; bounded real round trips"),
+    'C07': dict(
+        category='other',
+        text="Decided only up to the bound. Discharged by exhaustive evaluation of small finite domains: cast_string(_to_string(v)) == v "
+             "for enumerated numbers, booleans, numeric lists and all plain-text strings over a 10-letter alphabet up to length 3 that "
+             "are inside the formats' value domain; static correspondence of the CSV section markers, material-property prefix and "
+             "model-section keys between writer and reader. Bounded stand-in: generated isotherms of the three classes exported to CSV, "
+             "Excel and AIF (string and file targets) and re-imported, compared field by field (material and properties, adsorbate, "
+             "temperature, labels, data to 8 decimals, branch marks and order, model name/parameters/ranges, metadata values, equality).",
+        design_ref='§3 C07, §4',
+        note="Contracts cannot see inside gemmi, xlwt/xlrd and pandas; 96 round trips per format quick, 400 thorough. Known findings are "
+             "listed per format in known_findings.json.",
+        technique="exhaustive evaluation of the string codec over a finite domain + static field correspondence; bounded real round trips"),
 }
 
 NOT_YET = {
